@@ -813,6 +813,7 @@ def run_property(pid, tier, seed):
     diff_out = []
     compared = 0
     oracle_miss = 0
+    runner.SC_STATS.update({'compared': 0, 'agree': 0, 'engine_inconsistency': 0, 'unexplained': 0, 'examples': []})
     for c in allc:
         r = impl.get(c['id'])
         if r is None or 'harness_panic' in r:
@@ -848,6 +849,7 @@ def run_property(pid, tier, seed):
         broken.append('correspondence broken at stage(s) %s (first: stage %s)' % (sorted(stage_diffs), first_diff['stage']))
     res['first_diff'] = first_diff
     res['stats'].update({'cases': len(allc), 'corpus': ncorp, 'compared': compared, 'stage_diffs': stage_diffs})
+    res['stats']['selfcheck_tie'] = json.loads(json.dumps(runner.SC_STATS))
     # the model of the regex crate (Engine/*.v) is validated against the real crate on every run of the
     # properties whose theorems speak about parsing/matching
     if pid in ('C01', 'C02', 'C06', 'C07', 'C08', 'C11') and st['driver_ok']:
@@ -861,7 +863,7 @@ def run_property(pid, tier, seed):
             broken.append('engine matching model disagrees with the regex crate: %s' % (sv.get('error') or json.dumps((sv['full_disagree'] + sv['find_disagree'] + sv.get('first_disagree', []))[0])[:300]))
         res['stats']['engine_model'] = {'parser_patterns': ev.get('total'), 'parser_agree': ev.get('agree'), 'parser_model_rejects_only': ev.get('model_rejects_only'),
                                         'semantics_patterns': sv.get('patterns'), 'semantics_haystacks': sv.get('haystacks'),
-                                        'leftmost_first_spans_compared': sv.get('first_compared')}
+                                        'leftmost_first_spans_compared': sv.get('first_compared'), 'find_iter_counts_compared': sv.get('count_compared')}
     # oracles on the implementation
     def fails_of(c, r):
         out = []
@@ -1205,7 +1207,8 @@ def finish(pid, res):
         'theorems': {n: thm[n] for n in names},
         'correspondence': {'cases_compared': stats.get('compared', 0), 'stages': spec.get('stages'), 'stage_disagreements': stats.get('stage_diffs', {}),
                            'local_search_after_break': stats.get('local_search'), 'native_hunt': stats.get('native_hunt'),
-                           'search_spans_priority_model_vs_pikevm': stats.get('search_correspondence')},
+                           'search_spans_priority_model_vs_pikevm': stats.get('search_correspondence'),
+                           'selfcheck_outcome_computed_by_model_vs_implementation': stats.get('selfcheck_tie')},
         'oracle': {'unknown_failures': res.get('unknown_failures', 0), 'known_class_failures': stats.get('known_class_failures', {}),
                    'undecided_language_queries': stats.get('undecided_lang', 0), 'engine_inconsistencies': stats.get('engine_inconsistencies', 0)},
         'distribution': {k: stats.get(k) for k in ('flags', 'alphabets', 'selfcheck', 'sizes', 'corpus', 'distinct')},
